@@ -468,11 +468,12 @@ impl Tower {
             *sh.user_id.lock().unwrap() = Some(uid);
         }
         // choose the behaviour, note the request
-        let (beh, seq, kill) = {
+        let (beh, seq, kill, from_queue) = {
             let mut st = self.st.lock().unwrap();
             st.nreq += 1;
             st.inflight += 1;
             let popped = st.queue.get_mut(ep).and_then(|q| q.pop_front());
+            let from_queue = popped.is_some();
             if popped.is_some() {
                 let left = st.queue.get(ep).map(|q| q.len()).unwrap_or(0);
                 let dflt = st.mode.get(ep).cloned().unwrap_or(Beh(json!({"k":"accept"})));
@@ -492,7 +493,7 @@ impl Tower {
                 }
                 None => None,
             };
-            (beh, sh.seq.fetch_add(1, Ordering::SeqCst) + 1, kill)
+            (beh, sh.seq.fetch_add(1, Ordering::SeqCst) + 1, kill, from_queue)
         };
         let cls = classes_of(ep, &beh);
         let k = beh.kind();
@@ -510,7 +511,13 @@ impl Tower {
             st.held += 1;
             let my = st.held;
             self.cv.notify_all();
+            // held until the script releases it - or until the tower is no longer set to hold its answers (a request
+            // that arrived just before "mode ..; release" must not be left behind)
             while st.release < my && !st.stop {
+                let still = from_queue || st.mode.get(ep).map(|b| jbool(&b.0, "hold", false)).unwrap_or(false);
+                if !still {
+                    break;
+                }
                 st = self.cv.wait_timeout(st, Duration::from_millis(50)).unwrap().0;
             }
             // the script may decide the answer when it releases the request
@@ -1229,10 +1236,11 @@ impl Exec {
         });
         c.call("init", init, t).map_err(|_| "init not answered".to_owned())?;
         sh.wedged.store(false, Ordering::SeqCst);
-        *sh.client.lock().unwrap() = Some(c);
         self.boots += 1;
+        // the "boot" line comes before anybody (the sampler) can observe the new process
         sh.trace.emit(json!({"ev":"boot","n":self.boots,"cfg":self.cfg,
                              "towers": sh.towers.iter().map(|t| t.name.clone()).collect::<Vec<_>>()}));
+        *sh.client.lock().unwrap() = Some(c);
         emit_obs(&sh, "boot!");
         Ok(())
     }
